@@ -920,9 +920,12 @@ MANIFEST = dict(
         "item sorting before the unzip, pad values, ids from the same items). Necessary conditions of 'loses nothing / "
         "len agrees / ids stay attached'. BucketBatchSampler.__iter__ (a generator) and _get_batch_sampler_len are interpreted over plain data "
         "(sa/pyinterp.py) for 120 (order, bucket map, sizes, drop) cases, twice per sampler: the batches equal the documented ones and the "
-        "reported length is their number; the typestate rules are the fallback. Bucket purity over ties and quantile boundaries are not decided."),
+        "reported length is their number; the typestate rules are the fallback. _get_bucket_batch_sampler_params is interpreted the same way "
+        "for data sets of 0-9 utterances with ties at and between the quantile boundaries, 1-4 buckets, static and dynamic sizing: every "
+        "utterance gets a bucket that has a batch size, equal lengths share a bucket, buckets are monotone in length, and dynamic sizes are "
+        "the greatest fitting the frame budget - on that grid, not for all length distributions."),
     level_note="Trusted: python ast; torch pad_sequence / DataLoader. F3, F4 (seed chain, prefix default) and F17 (bare-"
                "tensor items bucketed by their first row) were found by these rules and repaired.",
-    technique="static analysis: argument binding, reaching definitions (def-use versions), path typestate, producer/consumer shape protocol, integer interpretation of the per-bucket length contribution; sampler length table (constructor, rank share and __len__ interpreted over the syntax tree); bucket sampler batches and reported length by interpretation of the generator over plain data",
+    technique="static analysis: argument binding, reaching definitions (def-use versions), path typestate, producer/consumer shape protocol, integer interpretation of the per-bucket length contribution; sampler length table (constructor, rank share and __len__ interpreted over the syntax tree); bucket sampler batches and reported length by interpretation of the generator over plain data; bucket assignment and batch-size map by interpretation of the parameter helper over tied length distributions",
     design_ref="DESIGN.md section 4 C14",
 )
